@@ -644,6 +644,29 @@ fn adversarial(thorough: bool) -> Vec<Value> {
             }
         }
     }
+    // --- a directory of two rules files, each with one test file: every ordered pair of {all expectations met, one unmet,
+    //     broken test file, broken rules file}, by name order and by modification order, in every output format
+    {
+        let kinds: Vec<(&str, &str)> = vec![
+            ("rule r { a == 1 }\n", "- input: {a: 1}\n  expectations:\n    rules:\n      r: PASS\n"),
+            ("rule r { a == 1 }\n", "- input: {a: 2}\n  expectations:\n    rules:\n      r: PASS\n"),
+            ("rule r { a == 1 }\n", "- input: {a: 1\n  expectations\n"),
+            ("rule r { a == }\n", "- input: {a: 1}\n  expectations:\n    rules:\n      r: PASS\n"),
+        ];
+        for (ra, ta) in &kinds {
+            for (rb, tb) in &kinds {
+                for fmt in [vec![], vec!["-v"], vec!["-o", "json"], vec!["-o", "yaml"], vec!["-o", "junit"]] {
+                    for order in [vec![], vec!["-a"], vec!["-m"]] {
+                        let files = json!({"d/a_first.guard": ra, "d/tests/a_first_tests.yaml": ta, "d/b_second.guard": rb, "d/tests/b_second_tests.yaml": tb});
+                        let mut argv = vec!["test", "-d", "@d"];
+                        argv.extend(fmt.iter());
+                        argv.extend(order.iter());
+                        out.push(cli_case(&argv, files, "", "test-dir-two-rules-files"));
+                    }
+                }
+            }
+        }
+    }
     // --- comparison operators on every pair of operand shapes (empty and nested lists on either side), literal, query and
     //     variable right-hand sides
     {
@@ -839,7 +862,7 @@ pub fn run(tier: &str) -> i32 {
         std::fs::write(&p, text).expect("dump");
         return 0;
     }
-    let wall = Some(Instant::now() + Duration::from_secs(if thorough { 3000 } else { 45 }));
+    let wall = Some(Instant::now() + Duration::from_secs(if thorough { 3000 } else { 150 }));
     let (outs, capped) = run_isolated(&cases, 20_000, wall);
     rep.states = outs.len() as u64;
     rep.transitions = outs.len() as u64;
